@@ -62,5 +62,33 @@ CLAIMED = {
     note="SIMD models trusted after differential validation (20000 vectors per intrinsic per run); has_avx2() stubbed to select the path; "
          "lengths beyond the bounds are not claimed. Two genuine defects found and repaired by fix: commits (known_findings.txt).",
     technique="CBMC bounded symbolic execution of encoding.c and encoding_avx2.c (SIMD intrinsics replaced by validated lane models), differential against a reference codec"),
+ "C04": dict(
+    text="On arbitrary bytes (every byte symbolic, object allocated with exactly the input length so any over-read is an error): aws_xml_parse "
+         "(preamble loop, next-sibling, declaration split, traverse loop; documents of 3..5 bytes quick, callback scripts abort / descend-then-abort), "
+         "base64 decode on both CPU paths (text up to 36), hex decode, UTF-8 validator with arbitrary chunking, unsigned-integer parsing (21 digits), "
+         "percent-decoding, query-string iteration, IPv6 literal check: no out-of-bounds access, loops terminate within the bound (unwinding "
+         "assertions are part of the property here), failure is reported through the documented channel with a registered error code, and every "
+         "returned view lies inside the input.",
+    note="NOT decided (stated in evidence.outside_claim): JSON/cJSON, the CBOR decoder, aws_uri_init_parse, the XML body/skip path "
+         "(s_advance_to_closing_tag), date-time, UUID and IPv4 (sscanf) -- their encodings exceed 12 GB / 240 s even at 2 input bytes or rest on libc. "
+         "A genuine XML defect (searching '>' before '<') was found by these harnesses and repaired by a fix: commit.",
+    technique="CBMC bounded symbolic execution of the real parsers over fully symbolic input buffers of fixed small length"),
+ "C10": dict(
+    text="CBOR integer-class items (unsigned, negative, tag, array and map heads) for ALL 64-bit values: encoder output read by an independent RFC 8949 "
+         "head reader (same major type and value, nothing else written), shortest head used, decoder returns type and value and consumes exactly the "
+         "encoded bytes. aws_cbor_encoder_write_float for EVERY double (bit pattern unconstrained, CBMC bit-precise IEEE-754): stored as integer iff "
+         "integral in [-2^63, 2^63), else single iff exactly representable, else double; decoder returns the same numeric value (NaN to NaN).",
+    note="NOT decided: string content round trip, multi-item sequences, skipping nested items, decoder on arbitrary bytes -- every harness with more "
+         "than one cbor_stream_decode call (a 256-way switch) exhausted 12 GB or 240 s; kept in the harness source, not run. ldexp (libm) stubbed.",
+    technique="CBMC bounded symbolic execution of cbor.c + libcbor encoder/decoder, differential against an independent head reader; floatbv for doubles"),
+ "C13": dict(
+    text="Percent-encoding (path and query-parameter encoders) for all byte strings up to 4 (quick) / 8 bytes with 0 or 2 bytes already in the output: "
+         "output consists only of unreserved characters, '%XX' with upper-case hex and (paths) '/', exactly one unit per input byte, existing content "
+         "untouched, decode(encode(x)) == x. Query-string iteration on arbitrary query strings up to 5 / 10 bytes: yields each non-empty pair once, in "
+         "order, key/value split at the first '=', agrees with the list form and with an independent reference splitter.",
+    note="NOT decided: clauses (a)/(b) -- parse(compose(components)) and parse(builder(components)) identity and views-inside-uri_str: every CBMC "
+         "instance containing aws_uri_init_parse, even for a 2-byte URI, exhausted 12 GB in propositional reduction (cause not isolated); harnesses "
+         "kept in h_uri.c, not run.",
+    technique="CBMC bounded symbolic execution of uri.c encoders/decoder/query iteration against reference models"),
 }
 NOT_APPLICABLE = {p: PENDING for p in ["C%02d" % i for i in range(1, 21)]}
